@@ -227,6 +227,43 @@ pub const ONCE_SEEDS: &[(&str, usize)] = &[
     ("local x = std.trace(\"b__\", 1); std.foldl(function(a, i) a + x, std.range(1, 10), 0)", 1),
 ];
 
+/// Every pair of "users" of one object-level local (or of one outer local captured by the
+/// object): the local must be evaluated once per object value whatever kinds of members use it.
+fn shared_local_programs() -> Vec<(String, usize)> {
+    // (member text using `x`, expression that forces the member on object `o`)
+    let users: Vec<(&str, &str)> = vec![
+        ("f1: x", "o.f1"),
+        ("f2:: x + 0", "o.f2"),
+        ("[\"c\" + \"1\"]: x", "o.c1"),
+        ("[\"c2\"]:: [x]", "o.c2[0]"),
+        ("m(p): x + p", "o.m(0)"),
+        ("assert x == 1", "o.anchor"),
+        ("p1+: x", "o.p1"),
+        ("n: {inner: x}", "o.n.inner"),
+        ("local y = x, viay: y", "o.viay"),
+        ("arr: [x, x]", "o.arr[0] + o.arr[1]"),
+        ("fn: function() x", "o.fn() + o.fn()"),
+    ];
+    let mut v = Vec::new();
+    for (i, (m1, u1)) in users.iter().enumerate() {
+        for (m2, u2) in users.iter().skip(i) {
+            if m1 == m2 {
+                continue;
+            }
+            // object-level local
+            v.push((format!("local o = {{ local x = std.trace(\"b__\", 1), anchor: 0, {m1}, {m2} }}; [{u1}, {u2}, {u1}]"), 1));
+            // the same object extended: one more object value, one more evaluation at most per value
+            v.push((format!("local o = {{ local x = std.trace(\"b__\", 1), anchor: 0, {m1}, {m2} }}; local q = o + {{}}; [{u1}, {u2}, {}]", u1.replace("o.", "q.")), 2));
+            // a local outside the object, captured by it: once overall
+            v.push((format!("local x = std.trace(\"b__\", 1); local o = {{ anchor: 0, {m1}, {m2} }}; local q = o + {{}}; [{u1}, {u2}, {}, x]", u2.replace("o.", "q.")), 1));
+        }
+    }
+    // comprehension objects: the captured variable and object locals
+    v.push(("local o = { local x = std.trace(\"b__\", 1), [k]: x for k in [\"a\", \"b\"] }; [o.a, o.b, o.a]".replace("\\\"", "\""), 1));
+    v.push(("local o = { [k.n]: k.v for k in [{n: \"a\", v: std.trace(\"b__\", 1)}] }; [o.a, o.a, (o + {}).a]".replace("\\\"", "\""), 1));
+    v
+}
+
 pub fn run(ctx: &Ctx) -> i32 {
     let plan: Vec<(Profile, usize)> = if ctx.quick() {
         vec![(corpus::LAZY, 3), (corpus::FUNCTIONS, 3), (corpus::OBJECTS, 3), (corpus::COMPS, 3)]
@@ -234,7 +271,7 @@ pub fn run(ctx: &Ctx) -> i32 {
         vec![(corpus::LAZY, 4), (corpus::FUNCTIONS, 4), (corpus::OBJECTS, 4), (corpus::COMPS, 4), (corpus::FULL, 3)]
     };
     let mut total = Report::new();
-    let cfg = util::ForkCfg { threads: ctx.threads, mem_bytes: 3 << 30, case_timeout_s: 60, died_signature: "C04/abort".into() };
+    let cfg = util::ForkCfg { threads: ctx.threads, mem_bytes: 3 << 30, case_timeout_s: 60, died_signature: "C04/abort".into(), resource_is_violation: false };
     for (p, nmax) in plan {
         for n in 1..=nmax {
             corpus::warm(p, n);
@@ -275,6 +312,18 @@ pub fn run(ctx: &Ctx) -> i32 {
             total.violation("C04/seed/evaluated-more-than-once", format!("`{src}`: traced part ran {} times (expected {want}), outcome {}", r.traces.len(), r.outcome.short()), json!({"type":"eval","source":src}));
         }
     }
+    let shared = shared_local_programs();
+    for (src, max_runs) in &shared {
+        let r = rt::run_fresh(src.as_bytes(), &RunCfg::default());
+        total.evaluations += 1;
+        total.states += 1;
+        if !r.outcome.is_value() {
+            total.violation("C04/seed-baseline", format!("`{src}`: {}", r.outcome.short()), json!({"type":"eval","source":src}));
+        } else if r.traces.len() > *max_runs || r.traces.is_empty() {
+            total.violation("C04/seed/evaluated-more-than-once", format!("`{src}`: the shared local ran {} times (expected {})", r.traces.len(), max_runs), json!({"type":"eval","source":src}));
+        }
+    }
+    total.extra.insert("shared_local_programs".into(), json!(shared.len()));
     total.extra.insert("seed_templates".into(), json!(SEEDS.len() + ONCE_SEEDS.len()));
     util::finish(
         ctx,
